@@ -162,7 +162,7 @@ func main() {
 	u, _ := url.Parse(srv.URL + "/")
 	n := 0
 	type opk struct{ kind, op string }
-	ops := []opk{{"chunk", "get"}, {"chunk", "has"}, {"chunk", "put"}, {"index", "get"}, {"index", "put"}}
+	ops := []opk{{"chunk", "get"}, {"chunk", "has"}, {"chunk", "put"}, {"index", "get"}, {"index", "put"}, {"chunknoverify", "get"}, {"indexreader", "get"}}
 	for si, s := range scripts {
 		for _, R := range []int{0, 1, 2, 3, 5} {
 			// all ops for short scripts, one random op for the rest
@@ -174,14 +174,27 @@ func main() {
 				opt := desync.StoreOptions{ErrorRetry: R, ErrorRetryBaseInterval: time.Nanosecond}
 				sc.mu.Lock()
 				sc.resp, sc.n, sc.lastBody = s, 0, nil
-				if o.kind == "chunk" {
+				if o.kind == "chunk" || o.kind == "chunknoverify" {
 					sc.payload = comp
 				} else {
 					sc.payload = ib.Bytes()
 				}
 				sc.mu.Unlock()
 				res, dataok := "", true
-				if o.kind == "chunk" {
+				if o.kind == "indexreader" { // the raw index reader: no parsing that could turn an empty answer into an error
+					st, err := desync.NewRemoteHTTPIndexStore(u, opt)
+					if err != nil {
+						panic(err)
+					}
+					rd, err := st.GetIndexReader("x.caibx")
+					res = classErr(err)
+					if err == nil {
+						b, rerr := io.ReadAll(rd)
+						rd.Close()
+						dataok = rerr == nil && bytes.Equal(b, ib.Bytes())
+					}
+				} else if o.kind == "chunk" || o.kind == "chunknoverify" {
+					opt.SkipVerify = o.kind == "chunknoverify" // a hop that does not verify (the chunk server's default for its upstream)
 					st, err := desync.NewRemoteHTTPStore(u, opt)
 					if err != nil {
 						panic(err)
